@@ -28,7 +28,8 @@ Print Assumptions C06_lex_no_fault.
 
 (* The reader position recorded after every token, and the position at which the lexer gives up (which is the
    location of the parse error then, parser.go:146-152 with lt = nil), lie within the input: the line is one of the
-   1 + (number of line feeds) lines, the column is between 0 and the length of that line + 2. *)
+   1 + (number of line feeds) lines, the column is between 0 and the length of that line + 1 (+ 2 after the first
+   line, where the line feed that ended the previous line counts as a column). *)
 Theorem C06_lex_positions_within_input :
   forall (ol : N -> bool) (s : str),
     Forall (fun t => pos_within s (pt_line t) (pt_col t)) (fst (lex ol s)) /\
@@ -49,7 +50,8 @@ Proof. exact parse_no_fault. Qed.
 Print Assumptions C06_parse_no_fault.
 
 (* ... so the result is a value or a located parse error whose line and column lie within the input (pos_within:
-   1 <= line <= 1 + number of line feeds, 0 <= column <= length of that line + 2).  The column of a syntax error is
+   1 <= line <= 1 + number of line feeds, 0 <= column <= length of that line + 1, + 2 after the first line).  The column
+   of a syntax error is
    the reader's column minus the number of characters of the offending token (parser.go:149): it is never negative
    because the unescaped text of a token never has more characters than were read for it. *)
 Theorem C06_parse_total :
